@@ -14,6 +14,7 @@ mod c08;
 mod c09;
 mod c10;
 mod c11;
+mod c13;
 mod c16;
 mod c18;
 mod bessel;
@@ -25,6 +26,38 @@ mod selftest;
 mod types;
 
 use engine::{run, Args, Tier};
+use std::alloc::{GlobalAlloc, Layout, System};
+use std::sync::atomic::AtomicBool;
+
+/// the counting allocator is active (switched off only for experiments)
+pub static ALLOC_TRACKING: AtomicBool = AtomicBool::new(true);
+
+/// Counting global allocator: live allocations / bytes per thread (the leak oracle of C13).
+struct Counting;
+unsafe impl GlobalAlloc for Counting {
+    unsafe fn alloc(&self, l: Layout) -> *mut u8 {
+        let p = System.alloc(l);
+        if !p.is_null() {
+            let _ = c13::LIVE_ALLOCS.try_with(|c| c.set(c.get() + 1));
+            let _ = c13::LIVE_BYTES.try_with(|c| c.set(c.get() + l.size() as i64));
+        }
+        p
+    }
+    unsafe fn dealloc(&self, p: *mut u8, l: Layout) {
+        System.dealloc(p, l);
+        let _ = c13::LIVE_ALLOCS.try_with(|c| c.set(c.get() - 1));
+        let _ = c13::LIVE_BYTES.try_with(|c| c.set(c.get() - l.size() as i64));
+    }
+    unsafe fn realloc(&self, p: *mut u8, l: Layout, new_size: usize) -> *mut u8 {
+        let q = System.realloc(p, l, new_size);
+        if !q.is_null() {
+            let _ = c13::LIVE_BYTES.try_with(|c| c.set(c.get() + new_size as i64 - l.size() as i64));
+        }
+        q
+    }
+}
+#[global_allocator]
+static GLOBAL: Counting = Counting;
 
 fn main() {
     let argv: Vec<String> = std::env::args().collect();
@@ -45,6 +78,7 @@ fn main() {
     let mut shards = std::thread::available_parallelism().map(|n| n.get()).unwrap_or(8).min(16);
     let mut cases_override = None;
     let mut evidence = true;
+    let mut direct = 0u64;
     let mut i = 2;
     while i < argv.len() {
         match argv[i].as_str() {
@@ -67,6 +101,10 @@ fn main() {
                 shards = argv[i].parse().expect("shards");
             }
             "--no-evidence" => evidence = false,
+            "--direct" => {
+                i += 1;
+                direct = argv[i].parse().expect("direct");
+            }
             other => {
                 eprintln!("unknown argument {other}");
                 std::process::exit(2);
@@ -74,7 +112,7 @@ fn main() {
         }
         i += 1;
     }
-    let args = Args { tier, seed, replay, shards, cases_override, evidence };
+    let args = Args { tier, seed, replay, shards, cases_override, evidence, direct };
     let code = match prop.as_str() {
         "C01" => run::<c01::C01>(&args),
         "C02" => run::<c02::C02>(&args),
@@ -87,6 +125,7 @@ fn main() {
         "C09" => run::<c09::C09>(&args),
         "C10" => run::<c10::C10>(&args),
         "C11" => run::<c11::C11>(&args),
+        "C13" => run::<c13::C13>(&args),
         "C14" => run::<bessel::C14>(&args),
         "C16" => run::<c16::C16>(&args),
         "C18" => run::<c18::C18>(&args),
